@@ -15,6 +15,9 @@ F = [
  ("C03", "c03:compressed-mismatch", "fixed", "2722a09", "names first written beyond offset 16383 were recorded as compression targets and later pointers to them were truncated to 14 bits: compressed output parsed to different names or not at all (corpus/C03/pointer-beyond-16383*.json)"),
  ("C04", "c04:cursor-differs-compressed", "fixed", "2ce03a3", "write_compressed_to sought to SeekFrom::End(0) after back-patching RDLENGTH: on pre-filled storage the next record was written after the end of the buffer contents (corpus/C04/prefilled-storage-seek-end.json)"),
  ("C07", "c07:unwalkable@origin", "fixed", "9ae0a10", "write_compressed_to used absolute stream positions as pointer offsets: a writer starting at offset k>0 emitted pointers off by k (corpus/C07/nonzero-origin.json)"),
+ ("C05", "c05:entries-differ-surplus", "fixed", "3b8e2f8", "the record cursor was left where the typed RDATA parser stopped: surplus RDATA bytes were read as the next record (A record with RDLENGTH 19 whose surplus is a well-formed record; corpus/C05/surplus-*.json)"),
+ ("C11", "c11:rcode-nibble-11..15-without-opt", "fixed", "587fcb6", "a received response code 11..15 (no OPT) shows as RCODE::Reserved, whose discriminant 17 was written back as 17 & 15 = 1 (FormatError) (input 0000000b0000000000000000; corpus/C11/reserved-rcode-becomes-formaterror.json)"),
+ ("C12", "panic:fmt.rs:655:a formatting trait implementation returned an error when the underlying stream d", "fixed", "3b15704", "Display for Label returned Err and Display for CharacterString unwrapped on non-UTF-8 bytes: Debug / to_string of a parsed packet with such a label panicked (corpus/C12/non-utf8-label-debug.json)"),
  ("C01", "panic:simple-dns/src/dns/rdata/a.rs:22", "fixed", "80de3fc", "every typed RDATA parser and CharacterString::parse sliced without bounds checks (and the character-string bound was off by one): RDLENGTH shorter than the fixed fields, or an inner length overrunning RDLENGTH, panicked (corpus/C01/panic_simple_dns_src_dns_rdata_*.json, corpus/C10/*-overrun.json)"),
 ]
 out = {"_comment": "Genuine defects of balliegojr/simple-dns found by the checks. status=known: not repaired; keyed by the violation signature; reported as KNOWN-FINDING and tolerated so the search continues behind it. status=fixed: repaired by the named 'fix:' commit in /repo; suppresses nothing.",
